@@ -97,6 +97,18 @@ def lean_lift(ctx, text, opts):
         return None
 
 
+def model_agrees(ctx, text, opts, out):
+    """does the Lean model of the whole format() pipeline produce exactly this output?  A known finding is a behaviour OF THE MODELLED CODE: an output
+    the model does not reproduce is something else, whatever the input looks like (None when the driver cannot say)"""
+    try:
+        if not ctx.model.available:
+            return None
+        mo = ctx.model.ask(['fmt %s %d %s' % (streams.enc_dict(opts) or '-', 20000, hexs(text))])[0]
+        return mo.startswith('ok') and unhex(mo[3:]) == out
+    except Exception:
+        return None
+
+
 def check_reindent(ctx, text, opts):
     out = sqlparse.format(text, **opts)
     ctx.evaluations += 1
@@ -134,7 +146,7 @@ def check_reindent(ctx, text, opts):
             is_clause = False
         if is_clause and sig_before:
             ctx.fail('reindent: clause keyword does not start its own line', text, observed=out[:400], required='%s at line start' % name, options=repr(opts),
-                     lean_lift=lean_lift(ctx, text, opts))
+                     full_output=out)      # the Lean verdicts are attached in one batch at the end of run(): `annotate_lean`
             return
         sig_before = True
 
@@ -283,6 +295,53 @@ def whitespace_cases(ctx):
 KF8_WITNESSES = ['a, from t', 'x, set y = 1', 'case when a then b else c end, from']
 
 
+def annotate_lean(ctx):
+    """one batch for all clause failures: `lean_lift` (side conditions on the model's trees) and `model_agrees` (the model of the unchanged pipeline
+    computes exactly this output) — the driver is started once per batch, not once per failure"""
+    fs = [f for f in ctx.failures if 'clause keyword does not start its own line' in f['what'] and 'lean_lift' not in f and isinstance(f.get('input'), str)]
+    if not fs or not ctx.model.available:
+        return
+    try:
+        reqs = []
+        for f in fs:
+            o = eval(f['options']) if isinstance(f.get('options'), str) else (f.get('options') or {})
+            e = streams.enc_dict(o) or '-'
+            reqs += ['liftok %s %d %s' % (e, 20000, hexs(f['input'])), 'fmt %s %d %s' % (e, 20000, hexs(f['input']))]
+        outs = ctx.model.ask(reqs)
+        for i, f in enumerate(fs):
+            lo, mo = outs[2 * i], outs[2 * i + 1]
+            f['lean_lift'] = lo.split()[1:] if lo.startswith('ok') else None
+            f['model_agrees'] = bool(mo.startswith('ok') and unhex(mo[3:]) == f.get('full_output'))
+            f.pop('full_output', None)
+    except Exception as e:
+        ctx.notes.append('annotate_lean failed: %r' % (e,))
+
+
+KWITEM_WORDS = ['from', 'set', 'or', 'and', 'union', 'union all', 'limit', 'order by', 'group by', 'having', 'join', 'left outer join', 'except', 'values', 'for', 'offset']
+KWITEM_CONTEXTS = ['a, {w} t', 'select a, {w} t', 'select a, b, {w} x from t', 'select * from (select a, {w} b from u) s', 'select f(a, {w} b) from t',
+                   'select * from t where x in (a, {w} b)', 'update t set a = 1, {w} b', 'select case when a then b end, {w} c from t', 'select 1;  a, {w} t']
+KWITEM_OPTS = [{'reindent': True}, {'reindent': True, 'comma_first': True}, {'reindent': True, 'indent_columns': True}, {'reindent': True, 'wrap_after': 1},
+               {'reindent': True, 'indent_after_first': True, 'indent_tabs': True}]
+
+
+def kwitem_cases(ctx):
+    """a split keyword as an ITEM of an identifier list, at zero and non-zero indentation (the neighbourhood of KF-C10-8: only a list that starts the
+    statement loses the line break; everywhere else the keyword gets its own line)"""
+    cases = []
+    for w in KWITEM_WORDS:
+        for cx in KWITEM_CONTEXTS:
+            t = cx.replace('{w}', w)
+            for o in (KWITEM_OPTS if not ctx.quick() else [KWITEM_OPTS[(len(w) + len(cx)) % len(KWITEM_OPTS)], KWITEM_OPTS[0]]):
+                n0 = len(ctx.failures)
+                try:
+                    check_reindent(ctx, t, o)
+                except Exception as e:
+                    ctx.fail('format raised ' + type(e).__name__, t, observed=repr(e)[:200], required='formatted text', options=repr(o))
+                cases.append((t, o, any('clause keyword' in f['what'] for f in ctx.failures[n0:])))
+    ctx.count('sweep.kwitems', len(cases))
+    return cases
+
+
 def domain_liftok(ctx, cases):
     """DOMAIN(liftok): `liftOK` (Lean, on the model's tree) is the authority for the reindent clause.  cases: (text, options, did the text-level oracle
     `check_reindent` find a clause keyword inside a line).  liftOK on every statement and the oracle fails = a violation (the failure is already
@@ -358,7 +417,9 @@ def run(ctx):
         n0 = len(ctx.failures)
         check_reindent(ctx, w, {'reindent': True})
         lift_cases.append((w, {'reindent': True}, len(ctx.failures) > n0))
+    lift_cases += kwitem_cases(ctx)
     domain_liftok(ctx, lift_cases)
+    annotate_lean(ctx)
     ctx.samples += [short(t, 80) for t in texts[:3]]
     if ctx.model.available and hasattr(streams, 's_fmt'):
         cs = [(t, rng.choice([{'strip_whitespace': True}, {'use_space_around_operators': True}, {'reindent': True}, {'reindent': True, 'comma_first': True}])) for t in texts[: ctx.n(400, 5000)]]
@@ -441,7 +502,9 @@ def classify(f, kf):
             # the Lean predicate decides: some statement is outside `liftOK` BY CLAUSE (3) (a split keyword is a direct item of an IdentifierList);
             # a failure on a text whose statements all satisfy liftOK is never a known finding
             ws = [w.split(':') for w in f['lean_lift'] if w != '-' and not w.startswith('err')]
-            if any(len(w) == 3 and w[0] == '0' and w[2] == '1' for w in ws):
+            # … and the output is the one the model of the unchanged filter computes (third red-team pass: the verdict above depends on the INPUT only;
+            # a change that spoils further inputs of that shape — e.g. lists that do not start the statement — must not hide behind it)
+            if any(len(w) == 3 and w[0] == '0' and w[2] == '1' for w in ws) and f.get('model_agrees') is True:
                 return k['id']
         if k['id'] == 'KF-C10-5' and 'strip_whitespace is not a fixed point' in f['what'] and isinstance(f['input'], str) \
                 and only_blanks_after_comment_lines_removed(f['input'], {'strip_whitespace': True}):
